@@ -96,7 +96,7 @@ type sample struct {
 func main() {
 	r := ev.Start("C05", "exploration")
 	r.Supervise()
-	r.Rule("scenarios: log (follower tails the leader), snapshot (follower starts after the leader compacted its log), writes-during-recovery, worker-restart, engine-restart, slow-apply (follower apply stalled so that the worker's proposal times out while in flight), table create/delete; " +
+	r.Rule("scenarios: log (follower tails the leader; membership changes of the leader shard in mid-log, every second one while the follower is paused), second-consumer (another consumer reads the tail of the same leader node's log while the follower is paused), snapshot (follower starts after the leader compacted its log), writes-during-recovery, worker-restart, engine-restart, slow-apply (follower apply stalled so that the worker's proposal times out while in flight), table create/delete; " +
 		"leader message-size limit in {300 B, 1 KiB, 4 MiB}, follower MaxInMemLogSize in {0, 4000, 64 KiB, 1 MiB}, leader log cache on/off. " +
 		"Non-trivial: a usable follower sample at a leader index > 0 with non-empty content (distinct by scenario, table, leader index), and every scenario with >=30 usable samples at >=10 distinct leader indices and >=5 non-idempotent commands; the evidence lists both counts per scenario")
 	r.Assume("every leader write is issued by the harness; a leader write that ends in an error makes the run inconclusive from there",
@@ -112,8 +112,8 @@ func main() {
 		}
 		r.Finish()
 	}
-	quick := []string{"log", "snapshot", "writes-during-recovery", "worker-restart", "slow-apply", "tables", "lease-handover"}
-	all := append(append([]string{}, quick...), "engine-restart", "log", "snapshot", "slow-apply", "writes-during-recovery", "engine-restart")
+	quick := []string{"log", "snapshot", "writes-during-recovery", "worker-restart", "slow-apply", "tables", "lease-handover", "second-consumer"}
+	all := append(append([]string{}, quick...), "engine-restart", "second-consumer", "log", "snapshot", "slow-apply", "writes-during-recovery", "engine-restart")
 	list := quick
 	if r.Thorough() {
 		list = nil
@@ -133,7 +133,8 @@ func main() {
 	r.FloorNontrivial(int64(r.Pick(60, 600)))
 	r.FloorCount("usable_samples", int64(r.Pick(300, 4000)))
 	r.FloorCount("leader_writes", int64(r.Pick(500, 6000)))
-	r.FloorCount("scenarios_converged", int64(r.Pick(5, 40)))
+	r.FloorCount("scenarios_converged", int64(r.Pick(6, 40)))
+	r.FloorCount("second_consumer_reads_of_the_log_tail", int64(r.Pick(5, 20)))
 	r.FloorCount("snapshot_recoveries_observed", int64(r.Pick(2, 12)))
 	r.FloorCount("table_set_convergence_checks", int64(r.Pick(2, 8)))
 	r.FloorCount("messages_ending_with_raft_internal_entry_behind_data_followed_by_more_in_stream", int64(r.Pick(3, 20)))
@@ -277,11 +278,16 @@ func runScenario(r *ev.Run, id caseID) {
 	}
 	inMem := []uint64{0, 1 << 20, 6 << 20, 1 << 20}[g.Intn(4)] // must exceed the worker's 256 KiB proposals
 	logCache := []int{0, 0, 16, 1024}[g.Intn(4)]
+	if id.Scenario == "second-consumer" {
+		// two consumers of one leader node only interact through its log cache
+		logCache = []int{16, 200, 1024}[g.Intn(3)]
+		maxMsg = []uint64{700, 2048, 4 << 20}[g.Intn(3)]
+	}
 	// the leader compacts its log aggressively only in the scenarios that are about snapshot recovery
 	snapEntries, overhead := uint64(0), uint64(0)
 	if id.Scenario == "snapshot" || id.Scenario == "writes-during-recovery" {
 		snapEntries, overhead = 20, 5
-	} else if g.Intn(3) == 0 {
+	} else if g.Intn(3) == 0 && id.Scenario != "second-consumer" { // (a compaction empties the log cache)
 		snapEntries, overhead = 150, 100 // compaction happens, but well behind a tailing follower
 	}
 	w := witness{Case: id, Config: fmt.Sprintf("leader max message %d B, log cache %d, SnapshotEntries %d / CompactionOverhead %d; follower MaxInMemLogSize %d", maxMsg, logCache, snapEntries, overhead, inMem)}
@@ -458,14 +464,14 @@ func runScenario(r *ev.Run, id caseID) {
 							if paused {
 								f.StopManager(0)
 							}
-							put(fmt.Sprintf("before-membership-change-%d-%s", i, strings.Repeat("k", g.Intn(40))), []byte("x"))
+							put(fmt.Sprintf("zz-before-membership-change-%d-%s", i, strings.Repeat("k", g.Intn(40))), []byte("x"))
 							if le.SyncRequestAddNonVoting(ctx, at.ClusterID, uint64(90+i), fmt.Sprintf("127.0.0.1:%d", 1+i), m.ConfigChangeID) == nil {
 								r.Count("raft_internal_entries_injected_mid_log", 1)
 								// followed at once by a write larger than the small message-size limits, so that
 								// a replication message ends right behind the Raft-internal entry
 								val := append([]byte(fmt.Sprintf("after-membership-change-%d|", i)), make([]byte, 2600+g.Intn(1500))...)
 								put("f", val)
-								put(fmt.Sprintf("after-membership-change-%d", i), []byte("y"))
+								put(fmt.Sprintf("zz-after-membership-change-%d", i), []byte("y"))
 							}
 							if paused {
 								if err := f.StartManager(0); err != nil {
@@ -558,6 +564,73 @@ func runScenario(r *ev.Run, id caseID) {
 			time.Sleep(time.Duration(200+g.Intn(200)) * time.Millisecond)
 		}
 		stop.Store(true)
+		wg.Wait()
+	case "second-consumer":
+		// A second consumer of the same leader node (another follower cluster that is nearly caught
+		// up, e.g. after a snapshot recovery or served by another leader replica so far) reads the
+		// tail of the leader's log while this follower's replication is paused and lags behind.
+		pace = 4
+		startWriters(2, 400)
+		conn, err := cluster.Dial(l.ReplAddr)
+		if err != nil {
+			stop.Store(true)
+			wg.Wait()
+			finishSampler()
+			r.Inconclusive("dial leader: " + err.Error())
+			return
+		}
+		lc := pb.NewLogClient(conn)
+		put := func(t, key string, val []byte) {
+			ctx, cancel := context.WithTimeout(context.Background(), 3*time.Second)
+			defer cancel()
+			if resp, err := le.Put(ctx, &pb.PutRequest{Table: []byte(t), Key: []byte(key), Value: val}); err == nil {
+				cmd := &pb.Command{Table: []byte(t), Type: pb.Command_PUT, Kv: &pb.KeyValue{Key: []byte(key), Value: val}}
+				lg.add(t, write{rev: resp.Header.Revision, cmd: cmd, desc: fmt.Sprintf("%d:%s", resp.Header.Revision, gen.Describe(cmd))})
+			} else {
+				lg.failed.Store(true)
+				lg.why.Store(err.Error())
+			}
+		}
+		for i := 0; i < 8 && !lg.failed.Load(); i++ {
+			time.Sleep(time.Duration(60+g.Intn(80)) * time.Millisecond)
+			f.StopManager(0)
+			for _, t := range tables {
+				put(t, fmt.Sprintf("zz-while-paused-%d", i), []byte("x"))
+			}
+			time.Sleep(time.Duration(40+g.Intn(60)) * time.Millisecond)
+			for _, t := range tables {
+				at, err := le.GetTable(t)
+				if err != nil {
+					continue
+				}
+				ctx, cancel := context.WithTimeout(context.Background(), 5*time.Second)
+				if li, err := at.LocalIndex(ctx, true); err == nil && li.Index > 4 {
+					from := li.Index - uint64(g.Intn(4))
+					if st, err := lc.Replicate(ctx, &pb.ReplicateRequest{Table: []byte(t), LeaderIndex: from}); err == nil {
+						n := 0
+						for {
+							m, err := st.Recv()
+							if err != nil {
+								break
+							}
+							n += len(m.GetCommandsResponse().GetCommands())
+						}
+						r.Count("second_consumer_reads_of_the_log_tail", 1)
+						r.Count("second_consumer_commands_read", int64(n))
+					}
+				}
+				cancel()
+			}
+			if err := f.StartManager(0); err != nil {
+				stop.Store(true)
+				wg.Wait()
+				finishSampler()
+				_ = conn.Close()
+				r.Inconclusive("manager restart: " + err.Error())
+				return
+			}
+		}
+		_ = conn.Close()
 		wg.Wait()
 	case "slow-apply":
 		// writes keep flowing (paced) while the follower's apply path is stalled several times for
